@@ -11,10 +11,14 @@
  * was being handled (null if none), which is itself unchanged. */
 #define VF_ALPHABET "pa\ncdx:1"
 #define VF_STRING_GROWTH 1      /* lib/models.h: reallocating std::string model (what() texts exceed the 15-byte short-string buffer) */
-#define VF_STRING_FIXED_ALLOC 64   /* lib/models.h: heap buffers of std::string are objects of this constant size (more is reported) */
-#define VF_STRING_SPLIT_STORES 48  /* lib/models.h: _M_append writes at constant offsets; results of 48 or more characters are reported */
+#define VF_STRING_FIXED_ALLOC 64   /* lib/models.h: heap buffers of std::string are objects of this constant size (a larger request is reported) */
+#ifndef VF_STRING_SPLIT_STORES
+#define VF_STRING_SPLIT_STORES 48  /* lib/models.h: _M_append writes at constant offsets; results of that many or more characters are reported */
+#endif
 #define VF_STRING_NO_INPLACE_HEAP_APPEND 1   /* lib/models.h: appending within the capacity of a heap buffer never happens here (reported if it does) */
+#ifndef C05P_WHAT_CAP
 #define C05P_WHAT_CAP 48           /* c05_perr_models.h: capacity of the what() buffer of std::runtime_error (more is reported) */
+#endif
 #include "verif.h"
 #include "c05_perr_spec.h"
 
@@ -279,11 +283,9 @@ static void harness(void) {
   } else {
     CHECK(out[O_KIND] == K_OTHER && out[O_INNER_ID] == fid, "a foreign exception the family does not name propagates unchanged");
   }
-  REACH(must_fails && j == 1 && d[0] == '\n' && conv_perr, "must<> fails on the second line, converted");
-  REACH(must_fails && j + 1 == n, "must<> fails at the end of the input");
+  REACH(must_fails && j == 1 && d[0] == '\n' && c05p_nsrc >= 1 && ol >= 10, "must<> fails after a newline; source non-empty, outer line has two digits");
+  REACH(must_fails && j + 1 == n && j == C05P_N - 1, "must<> fails at the end of the input after the longest prefix");
   REACH(has_d && j == C05P_N - 2, "the action throws after the longest prefix");
-  REACH(has_c, "success");
-  REACH(!has_a && j == n, "input exhausted by the prefix");
-  REACH(must_fails && c05p_nsrc >= 1 && oc >= 10, "source non-empty, outer column has two digits");
+  REACH(has_c || (!has_a && j == n), "no exception: success, or input exhausted by the prefix");
 }
 #endif
